@@ -404,6 +404,7 @@ fn build(rng: &mut Rng) -> (Program, bool, Pre, &'static str) {
         allow_breaks: rng.chance(1, 6),
         max_blocks: 1 + rng.usize_below(3),
         high_origin: false,
+            tail_beyond_user: false,
     };
     let mut program = gen::generate(rng, &opts);
     let mut family = "valid";
